@@ -256,6 +256,7 @@ func (w *world) buildTxn(t *rapid.T, m *ref.Model, want string) *txnPlan {
 		}
 	}
 	idx := perm[:nIn]
+	legacyMix := rapid.IntRange(0, 2).Draw(t, "legacymix") > 0
 	var uxIn []coin.UxOut
 	var owners []gen.Key
 	coinsIn := new(big.Int)
@@ -272,6 +273,11 @@ func (w *world) buildTxn(t *rapid.T, m *ref.Model, want string) *txnPlan {
 		coinsIn.Add(coinsIn, bu(ux.Body.Coins))
 		v, c := rules.Accrued(ux, head.Time)
 		if c != rules.AccrueOK {
+			// the hard rule counts an input whose accrued hours do not fit 64 bits as 0 hours (documented legacy
+			// exception): sometimes go on and spend the hours of the other inputs, up to and one above that sum
+			if legacyMix {
+				continue
+			}
 			hoursOK = false
 		} else {
 			hoursIn.Add(hoursIn, v)
